@@ -195,6 +195,16 @@ class Origins:
                     l = n.inner[0].strip()
                     if l.kind == 'MemberExpr' and l.name == 'is_local' and n.inner[1].int_value() != 0:
                         s.add(f)
+            # a helper that only marks (returns nothing) makes its callers the constructors
+            changed = True
+            while changed:
+                changed = False
+                for f in list(s):
+                    if (self.fns[f].type or '').split('(')[0].strip() != 'void':
+                        continue
+                    for g, c in self.callers(f):
+                        if g not in s:
+                            s.add(g); changed = True
             self._frame_ctors = s
         return self._frame_ctors
 
@@ -222,8 +232,8 @@ class Origins:
                 if not hit:
                     continue
                 for o in self.expr(f, n.inner[1], frozenset()):
-                    for _, x in self._resolve_one(o, 0, f):
-                        if self._is_frame(x, f):
+                    for use, x in self._resolve_one(o, 0, f):
+                        if self._is_frame(x, f) or self._is_frame(x, use):
                             found.add(f)
                         elif x[0] == 'persist' and x[1] != (root, path):
                             r = self.holds_frame_objects(x[1][0], x[1][1])
